@@ -24,7 +24,7 @@ RULE = ('one evaluation = one complete schedule of {main: new, free} + submitter
         'the python monitor and replayed through the Lean transition system; non-trivial = at least two pool/submitter '
         'threads took turns, at least one task ran, and the trace differs from every other one')
 FLAVOURS = {0: 'eager', 1: 'lazy', 2: 'detached', 3: 'lazy+detached'}
-STRICT = os.environ.get('VERIF_C06_STRICT', '0') == '1'
+STRICT = os.environ.get('VERIF_C06_STRICT', '1') == '1'   # a trace the model rejects is a broken correspondence (reported with no-failing-input-found)
 
 
 # ------------------------------------------------------------------------------------------------
